@@ -14,7 +14,7 @@ from .. import gen
 from ..common import PY, Verdict, child_env, digest, rng_for, run_shards, seed, tier
 
 PROP = "C13"
-N = {"quick": 5000, "thorough": 120000}
+N = {"quick": 12000, "thorough": 150000}
 PATTERNS = [r"k\d+", r"k\d", r"[a-z]+", r"k1\d*|k2\d*", r"\w+", r"[a-m]\w*", r"k\d+|name|value", r"k|k\d\d", r"K\d+", r"[a-z]{1,4}",
             r"k[0-4]\d?", r"(k)(\d+)", r"name|title", r"k\d+|", r".*", r"[^k].*", r"k(?:1|2)\d"]
 
